@@ -86,3 +86,32 @@ Theorem C04_many_chunks_side_condition_needed : forall fexp cfg0,
     nfit (run fexp cfg0 [OFit xs None; OFit ys None]) = 1 /\
     nfit (run fexp cfg0 [OFit (xs ++ ys) None]) = 0.
 Proof. exact chunks_need_wf. Qed.
+
+(* ---- consecutive fit calls with caller-supplied labels (Proofs/FpsMore.v): cutting rows and labels at the
+   same place gives the same state as one call; default labels continue the numbering *)
+From BB Require Import Proofs.FpsMore.
+Theorem C04_do_fit_chunks_labelled_eq : forall fexp st xs ys l1 l2,
+  released st = false -> xs <> [] -> ys <> [] -> Forall (fun r => r <> None) xs ->
+  List.length l1 = List.length xs ->
+  do_fit fexp (fst (do_fit fexp st xs (Some l1))) ys (Some l2) =
+  do_fit fexp st (xs ++ ys) (Some (l1 ++ l2)).
+Proof. exact (@do_fit_chunks_labelled_eq). Qed.
+Theorem C04_do_fit_chunks_default_continue : forall fexp st xs ys,
+  released st = false -> xs <> [] -> ys <> [] -> Forall (fun r => r <> None) xs ->
+  let st1 := fst (do_fit fexp st xs None) in
+  nfit st1 = nfit st + Z.of_nat (List.length xs) /\
+  do_fit fexp st1 ys None =
+    do_fit fexp st1 ys (Some (zseq (nfit st + Z.of_nat (List.length xs)) (List.length ys))) /\
+  do_fit fexp st (xs ++ ys) None =
+    do_fit fexp st (xs ++ ys)
+      (Some (zseq (nfit st) (List.length xs) ++
+             zseq (nfit st + Z.of_nat (List.length xs)) (List.length ys))) /\
+  do_fit fexp st1 ys None = do_fit fexp st (xs ++ ys) None.
+Proof. exact (@do_fit_chunks_default_continue). Qed.
+Theorem C04_run_many_chunks_labelled : forall fexp cfg0 xs l (chunks : list (list (option fpv) * list Z)) tl,
+  xs <> [] -> Forall (fun r => r <> None) xs -> List.length l = List.length xs ->
+  Forall (fun c => fst c <> [] /\ Forall (fun r => r <> None) (fst c) /\
+                   List.length (snd c) = List.length (fst c)) chunks ->
+  run fexp cfg0 (OFit xs (Some l) :: map (fun c => OFit (fst c) (Some (snd c))) chunks ++ tl) =
+  run fexp cfg0 (OFit (xs ++ concat (map fst chunks)) (Some (l ++ concat (map snd chunks))) :: tl).
+Proof. exact (@run_many_chunks_labelled). Qed.
